@@ -63,6 +63,9 @@ DURX = {
         ((I(1), PLUS(n, I(2)), True, True), 0),  # (1, n+2)
         ((("r", 1, 2), ("r", 1, 2), False, False), 0),  # [1/2, 1/2]
         ((c(X), PLUS(c(X), n), False, False), 0),  # [c(x), c(x)+n]  (degenerate when n = 0)
+        # a duration-only fluent (pruned by the compiler) mixed, in BOTH bounds, with a fluent that
+        # earlier steps of the plan modify
+        ((PLUS(c(X), n), PLUS(PLUS(c(X), n), I(2)), False, False), 0),  # [c(x)+n, c(x)+n+2]
     ],
     "d2.durx": [
         ((PLUS(n, I(1)), PLUS(n, I(3)), True, False), 1),
